@@ -25,10 +25,14 @@ from ..miniint import IndexInterp, SymObj, is_token
 from . import common
 
 
-def _model(no_functions=False):
+def _model(no_functions=False, no_pep_lmi=False):
     m = _model_full()
     if no_functions:
         m["functions"] = []          # a model may consist of points, PEP-level constraints and partitions only
+    if no_pep_lmi:
+        m["psd"] = []                # ... or have no LMI of its own (what an earlier solve tracked must still be forgotten)
+        for f0 in m["functions"]:
+            f0.attrs["list_of_psd"] = []
     return m
 
 
@@ -37,7 +41,7 @@ def _model_full():
     m = {}
     m["metrics"] = [mk("Expression", "metric1"), mk("Expression", "metric2")]
     m["cons"] = [mk("Constraint", "pep_c1"), mk("Constraint", "pep_c2")]
-    m["psd"] = [mk("PSDMatrix", "pep_lmi1")]
+    m["psd"] = [mk("PSDMatrix", "pep_lmi1"), mk("PSDMatrix", "pep_lmi2")]
     f1 = mk("Function", "f1", _is_leaf=True, list_of_class_constraints=[mk("Constraint", "stale_class_c")], list_of_class_psd=[],
             list_of_constraints=[mk("Constraint", "f1_own_c")], list_of_psd=[mk("PSDMatrix", "f1_own_lmi")])
     f2 = mk("Function", "f2", _is_leaf=False, list_of_class_constraints=[], list_of_class_psd=[],
@@ -46,8 +50,10 @@ def _model_full():
     f4 = mk("Function", "f4", _is_leaf=False, list_of_class_constraints=[], list_of_class_psd=[], list_of_constraints=[],
             list_of_psd=[mk("PSDMatrix", "f4_own_lmi")])
     m["functions"] = [f1, f2, f3, f4]
+    # two of everything that is iterated: a loop that reads a name left over from an earlier loop handles the last element twice and the others never
     bp = mk("BlockPartition", "bp1", list_of_constraints=[mk("Constraint", "stale_partition_c")])
-    m["partitions"] = [bp]
+    bp2 = mk("BlockPartition", "bp2", list_of_constraints=[])
+    m["partitions"] = [bp, bp2]
     return m
 
 
@@ -55,7 +61,7 @@ class _Run:
     def __init__(self, root, wname, cfg):
         self.root, self.cfg = root, cfg
         self.trace = []
-        self.model = _model(cfg.get("nofunc", False))
+        self.model = _model(cfg.get("nofunc", False), cfg.get("nopsd", False))
         self.wrapper = SymObj("Wrapper", label="wrapper")
         self.solves = 0
         self.metric_cons = []
@@ -122,7 +128,7 @@ class _Run:
                 return 2
         if recv == "self":
             if nm == "get_nb_eigenvalues_and_corrected_matrix":
-                return (3, 0.0, ("corrected", args[0] if args else None))
+                return (self.cfg.get("nb_eig", 3), 0.0, ("corrected", args[0] if args else None))
             if nm == "check_feasibility":
                 self.trace.append(("check_feasibility", tuple(args)))
                 return ("dual_objective",)
@@ -135,6 +141,7 @@ def _configs():
     for heur, mode, value, verbose in itertools.product((None, "trace", "logdet2"), ("dual", "primal"), (("value", 1), None), (0, 1)):
         yield {"heur": heur, "mode": mode, "value": value, "verbose": verbose}
     yield {"heur": None, "mode": "dual", "value": ("value", 1), "verbose": 0, "nofunc": True}
+    yield {"heur": None, "mode": "dual", "value": ("value", 1), "verbose": 0, "nopsd": True}
 
 
 def _labels(objs):
@@ -172,10 +179,64 @@ def _callers_reject(repo, root, pname, value):
     return True
 
 
+CLAUSES = [("interpretable", "the solve root is within the interpreted fragment"),
+           ("drain", "every declared object is sent exactly once, after regeneration, metrics as objective <= metric"),
+           ("track", "the tracking lists hold exactly what was sent, in order"),
+           ("generate", "the problem is generated once, with the objective leaf, after every send and before the first solve"),
+           ("duals", "multipliers captured once after the first solve, before any dimension reduction; the residual stored is that capture"),
+           ("none", "no finite optimum: None is returned and nothing else is asked of the wrapper"),
+           ("heur", "heuristic calls: (first optimum, tolerance), identity / regularised inverse, one solve per step"),
+           ("primal", "the published instance is the last solution read from the wrapper"),
+           ("return", "dual mode returns the reconstruction, primal mode the solver value"),
+           ("verbosity", "the calls do not depend on the verbosity"),
+           ("options", "option strings outside the documented sets raise")]
+
+
 def r_solve_program(ctx, only):
-    """only: the clauses that belong to the property being checked (drain, generate, track, duals, none, heur, primal, return, verbosity)"""
-    if getattr(ctx, "_solveprog_done", None) is not None:
-        return ctx._solveprog_done
+    """only: the clauses that belong to the property being checked (drain, generate, track, duals, none, heur, primal, return, verbosity, options).
+    The unrolling is done once per run; every call reports the clauses asked for that were not reported yet.  Returns the number of
+    configurations unrolled (0: the root is outside the interpreted fragment and the structural rules decide alone)."""
+    if getattr(ctx, "_solveprog_result", None) is None:
+        ctx._solveprog_result = _compute(ctx)
+        ctx._solveprog_reported = set()
+    n, problems, root = ctx._solveprog_result
+    for c0, okmsg in CLAUSES:
+        if c0 in ctx._solveprog_reported:
+            continue
+        if c0 == "interpretable" and c0 not in problems:
+            continue
+        if c0 != "interpretable" and (c0 not in only or n == 0):
+            continue
+        ctx._solveprog_reported.add(c0)
+        ctx.ob("R-SOLVEPROG", "PEP.%s::%s" % (root.name, c0), c0 not in problems, okmsg if c0 not in problems else problems[c0], loc(root, root))
+    ctx.count("solve-root programs unrolled", n)
+    return n
+
+
+def decided_by_program(ctx, clauses):
+    """True when the solve root was unrolled on every configuration: the named clauses of R-SOLVEPROG are then reported (if they were not yet)
+    and decide; the structural rule that asks is not consulted."""
+    n = r_solve_program(ctx, set(clauses))
+    return n > 0
+
+
+def ob_unless_program(ctx, clauses, rule, key, ok, msg, where):
+    """A structural clause about the solve root: recorded as it is when it holds; when it does not hold but the root was unrolled on every
+    configuration and the named clauses of R-SOLVEPROG hold there, the program decides (the structural clause describes one way of writing the
+    root, the program what the root does) and a note is kept; otherwise the failure is recorded."""
+    if ok:
+        ctx.ob(rule, key, True, msg, where)
+        return
+    n = r_solve_program(ctx, set(clauses))
+    problems = ctx._solveprog_result[1]
+    if n > 0 and not any(c0 in problems for c0 in clauses) and "interpretable" not in problems:
+        ctx.notes.append("%s %s: structural clause not met (%s); decided by the unrolled solve root (%s)" % (rule, key, msg, ", ".join(sorted(clauses))))
+        return
+    ctx.ob(rule, key, False, msg, where)
+
+
+def _compute(ctx):
+    only = {c0 for c0, _ in CLAUSES}
     repo = ctx.repo
     root = common.solve_root(repo)
     ctx.unit(qualname(root))
@@ -208,7 +269,9 @@ def r_solve_program(ctx, only):
         env = {"self.list_of_performance_metrics": m["metrics"], "self.list_of_constraints": m["cons"], "self.list_of_psd": m["psd"],
                "Function.list_of_functions": m["functions"], "BlockPartition.list_of_partitions": m["partitions"],
                "Point.counter": 3, "Expression.counter": 4, "kwargs": {}, "self.wrapper_name": "cvxpy",
-               "Expression": ("type", "Expression"), "self.objective": None}
+               "Expression": ("type", "Expression"),
+               # the problem object has been solved before (except in the bare configuration): its objective leaf and tracking lists hold old objects
+               "self.objective": None if cfg.get("nofunc") else SymObj("Expression", label="objective leaf of an earlier solve", _is_leaf=True)}
         for t in tracked:
             env["self." + t] = [SymObj("Constraint", label="left over from an earlier solve")]
         vals = {"wrapper": run.wrapper, "verbose": cfg["verbose"], "mode": cfg["mode"], "heur": cfg["heur"], "eig": ("eig",), "tol": ("tol",)}
@@ -224,7 +287,7 @@ def r_solve_program(ctx, only):
         run, it = prepare(cfg)
         m = run.model
         label = "heuristic=%s mode=%s first optimum=%s verbose=%s%s" % (cfg["heur"], cfg["mode"], "finite" if cfg["value"] else "None", cfg["verbose"],
-                                                                         " (model without functions)" if cfg.get("nofunc") else "")
+                                                                         " (model without functions)" if cfg.get("nofunc") else (" (model without LMIs of its own)" if cfg.get("nopsd") else ""))
         try:
             ret = it.run(root.body)
         except AnalysisError as e:
@@ -235,9 +298,7 @@ def r_solve_program(ctx, only):
             # the structural rules on the solve root (R-DRAIN, R-PAIR, R-ORDER, R-PRIMALFLOW, R-HEURCALL, R-RET, R-NONE) decide the same clauses on
             # the syntax tree; the unrolled program is the sharper instrument when the root stays inside the interpreted fragment
             ctx.notes.append("R-SOLVEPROG skipped: solve root not interpretable (%s): %s" % (label, e))
-            ctx.count("solve-root programs unrolled", 0)
-            ctx._solveprog_done = 0
-            return 0
+            return 0, {}, root
         tr = run.trace
         names = [t[0] for t in tr]
 
@@ -283,6 +344,9 @@ def r_solve_program(ctx, only):
             fail("generate", "generate_problem is called %d time(s) / not between the last send and the first solve" % len(gen))
         elif tr[gen[0]][1] != (obj,):
             fail("generate", "generate_problem receives %s, not the objective leaf" % (tr[gen[0]][1],))
+        mv = [k for k, t in enumerate(tr) if t[0] == "set_main_variables"]
+        if len(mv) != 1 or (sends and mv[0] > min(sends)):
+            fail("generate", "set_main_variables is called %d time(s) / after the first object was sent" % len(mv))
         late = [tr[s] for s in sends if first_solve is not None and s > first_solve]
         if late:
             fail("generate", "`%s` is sent after the problem was solved" % _labels([late[0][1][-1]]))
@@ -366,7 +430,7 @@ def r_solve_program(ctx, only):
             fail("return", "mode 'primal' returns the optimum of solve #%s while the published instance (Gram matrix, function values) is the solution of "
                  "solve #%d: the value returned is not the objective of the instance returned" % (ret[1], nsolve))
         # ---- verbosity changes nothing
-        key = (cfg["heur"], cfg["mode"], bool(cfg["value"]), bool(cfg.get("nofunc")))
+        key = (cfg["heur"], cfg["mode"], bool(cfg["value"]), bool(cfg.get("nofunc")), bool(cfg.get("nopsd")))
         def norm(v):
             if isinstance(v, SymObj):
                 return v.attrs.get("label")
@@ -383,8 +447,9 @@ def r_solve_program(ctx, only):
     if "options" in only:
         probes = [("heur", h) for h in ("logdet", "logdetx", "logdet1.5", "logdet2 steps", "logdet3trace", "xlogdet2", "tracex", "Trace", " logdet2")] + \
                  [("mode", mo) for mo in ("Dual", "dual ", "both", "", "primal_dual")]
-        for what, bad in probes:
-            cfg = {"heur": bad if what == "heur" else None, "mode": bad if what == "mode" else "dual", "value": ("value", 1), "verbose": 0}
+        # ... whatever the solution looks like: also when the first solution already has a single significant eigenvalue
+        for what, bad, nb_eig in [(w0, b0, 3) for w0, b0 in probes] + [(w0, b0, 1) for w0, b0 in probes if w0 == "heur"][:4]:
+            cfg = {"heur": bad if what == "heur" else None, "mode": bad if what == "mode" else "dual", "value": ("value", 1), "verbose": 0, "nb_eig": nb_eig}
             run, it = prepare(cfg)
             try:
                 ret = it.run(root.body)
@@ -396,26 +461,8 @@ def r_solve_program(ctx, only):
             pname = [p0 for p0, r0 in role.items() if r0 == what][0]
             if _callers_reject(repo, root, pname, bad):
                 continue          # validated by every caller before the root is entered
-            problems.setdefault("options", "%s = %r is accepted (the solve goes through and returns `%r`); the documented values are %s" % (
-                "dimension_reduction_heuristic" if what == "heur" else "return_primal_or_dual", bad, ret,
+            problems.setdefault("options", "%s = %r is accepted%s (the solve goes through and returns `%r`); the documented values are %s" % (
+                "dimension_reduction_heuristic" if what == "heur" else "return_primal_or_dual", bad,
+                " when the first solution has one significant eigenvalue" if nb_eig == 1 else "", ret,
                 "None, 'trace' and 'logdet' followed by an integer" if what == "heur" else "'dual' and 'primal'"))
-    clauses = [("interpretable", "the solve root is within the interpreted fragment"),
-               ("drain", "every declared object is sent exactly once, after regeneration, metrics as objective <= metric"),
-               ("track", "the tracking lists hold exactly what was sent, in order"),
-               ("generate", "the problem is generated once, with the objective leaf, after every send and before the first solve"),
-               ("duals", "multipliers captured once after the first solve, before any dimension reduction; the residual stored is that capture"),
-               ("none", "no finite optimum: None is returned and nothing else is asked of the wrapper"),
-               ("heur", "heuristic calls: (first optimum, tolerance), identity / regularised inverse, one solve per step"),
-               ("primal", "the published instance is the last solution read from the wrapper"),
-               ("return", "dual mode returns the reconstruction, primal mode the solver value"),
-               ("verbosity", "the calls do not depend on the verbosity"),
-               ("options", "option strings outside the documented sets raise")]
-    for c0, okmsg in clauses:
-        if c0 == "interpretable" and c0 not in problems:
-            continue
-        if c0 != "interpretable" and c0 not in only:
-            continue
-        ctx.ob("R-SOLVEPROG", "PEP.%s::%s" % (root.name, c0), c0 not in problems, okmsg if c0 not in problems else problems[c0], loc(root, root))
-    ctx.count("solve-root programs unrolled", n)
-    ctx._solveprog_done = n
-    return n
+    return n, problems, root
